@@ -312,3 +312,5 @@ def run(ctx):
     rule_environment(ctx)
     rule_literals(ctx)
     rule_consumers(ctx)
+    import c14
+    ctx.include("C06.7", "prerequisite shared with C14: phi insertion is iterated, renaming order and scope pairing, phi identity (a missing phi makes a merged variable look constant)", c14.rule_phi_insertion, c14.rule_phis_and_locals)
